@@ -119,7 +119,7 @@ EXPORT errno_t _wcsncmp_s_chk(const wchar_t *restrict dest, rsize_t dmax,
         }
     }
 
-    while (*dest && *src && dmax && smax && count) {
+    while (dmax && smax && count && *dest && *src) {
 
         if (*dest != *src) {
             break;
@@ -132,6 +132,7 @@ EXPORT errno_t _wcsncmp_s_chk(const wchar_t *restrict dest, rsize_t dmax,
         count--;
     }
 
-    *resultp = count ? *dest - *src : 0;
+    /* equal within the first dmax/smax/count characters */
+    *resultp = (count && dmax && smax) ? *dest - *src : 0;
     return RCNEGATE(EOK);
 }
